@@ -1,13 +1,15 @@
 /-
-  Helper development for `Props/C12Doc.lean` (C12 at whole-document level), BLOCK side:
-  a symbolic run of `Block.parseBlocks` on a ONE-LINE source `w ++ body` (`w` = leading blanks of
-  width < 4, `body` without line terminator) whose first non-blank character starts no block
-  construct and which does not begin with an ordered-list marker:
+  Helper development for `Props/C12Doc.lean` (C12 at whole-document level), BLOCK side
+  (namespace `MdIt.Block.C12`): symbolic runs of `Block.parseBlocks` on a ONE-LINE source `w ++ body`
+  (`w` = leading blanks of width < 4, `body` without line terminator).
 
-      Root[ Paragraph[ InlineRoot(content = the whole line, mapping = [(0, 0)]) ] ],  no references.
-
-  Every rule of the chain other than the paragraph rule answers `false` and hands the state back
-  (`runRule_other`), in whatever order the chain lists them; the paragraph rule takes the line.
+    * `parseBlocks_one_line`    `Plain w body` (the first non-blank character starts no block
+                                construct, the text does not begin with an ordered-list marker):
+        Root[ Paragraph[ InlineRoot(content = the whole line, mapping = [(0, 0)]) ] ],  no references;
+      every rule of the chain other than the paragraph rule answers `false` and hands the state back
+      (`runRule_other`), in whatever order the chain lists them; the paragraph rule takes the line.
+    * `parseBlocks_fence_line`  `body = "~~~" ++ info` (`PlainG true`), the fence rule in front of the
+                                paragraph rule:  Root[ CodeFence{info (raw), '~', 3, content ""} ].
 -/
 import MdIt.Props.Block
 
